@@ -23,7 +23,7 @@ type C17 struct{}
 
 func (C17) ID() string { return "C17" }
 
-var c17Kinds = []string{"append", "copy", "move", "create", "rename", "conn.batch", "conn.mbox", "conn.boxes", "expunge", "delete", "papp"}
+var c17Kinds = []string{"append", "copy", "move", "create", "rename", "conn.batch", "conn.mbox", "conn.boxes", "expunge", "delete", "papp", "pcreate"}
 
 func (C17) Generate(r *core.Rand, tier string, idx int) *core.Scenario {
 	sc := &core.Scenario{Property: "C17", Cfg: map[string]int{}}
@@ -34,8 +34,8 @@ func (C17) Generate(r *core.Rand, tier string, idx int) *core.Scenario {
 	if r.P(1, 2) {
 		sc.Cfg["deepcreate"] = 1 // CREATE / RENAME that have to create parent mailboxes
 	}
-	//                 app cop mov cre ren cba cmb cbx exp del papp
-	weights := []int{14, 8, 5, 6, 2, 6, 3, 3, 3, 1, 4}
+	//                 app cop mov cre ren cba cmb cbx exp del papp pcreate
+	weights := []int{14, 8, 5, 6, 2, 6, 3, 3, 3, 1, 4, 3}
 	n := r.Range(25, 60)
 	for i := 0; i < n; i++ {
 		a := core.Action{K: c17Kinds[r.Weighted(weights)]}
@@ -308,6 +308,106 @@ func (C17) Execute(sc *core.Scenario, keepLog bool) *core.Result {
 					o, _ := model.NewObj(p.g.Marker, p.g.Bytes, nil)
 					box.Add(o, false)
 				}
+			case "pcreate":
+				// several sessions CREATE different mailboxes at the same time; as with papp the
+				// write gate lets every command do what it does before its first write, then
+				// the writes happen one by one
+				k := 2 + abs(a.Arg(1))%3
+				type pc struct {
+					s    *world.Sess
+					tag  string
+					name string
+					st   string
+				}
+				var ps []*pc
+				for j := 0; j < k; j++ {
+					name := fmt.Sprintf("q%d", (abs(a.Arg(2))+j)%8)
+					if e.R.Boxes[name] != nil {
+						continue
+					}
+					dup := false
+					for _, p := range ps {
+						dup = dup || p.name == name
+					}
+					if dup {
+						continue
+					}
+					ps2, err := e.W.Connect()
+					if err != nil {
+						e.Infra = err
+						return
+					}
+					if !ps2.Cmd("LOGIN user pass").OK() {
+						e.Fail("invariant", "LOGIN failed")
+						return
+					}
+					ps = append(ps, &pc{s: ps2, name: name})
+				}
+				if len(ps) < 2 {
+					for _, p := range ps {
+						p.s.Cmd("LOGOUT")
+						p.s.C.Dead = true
+					}
+					continue
+				}
+				gateMu.Lock()
+				gateShut = true
+				gateMu.Unlock()
+				for _, p := range ps {
+					p.tag = p.s.C.NextTag()
+					e.W.Sim.SetLabel(p.s.Label)
+					e.W.Tracef("C %s: %s CREATE %s", p.s.Label, p.tag, p.name)
+					p.s.C.Conn.ClientSend([]byte(fmt.Sprintf("%s CREATE %s\r\n", p.tag, p.name)))
+				}
+				e.W.Quiesce()
+				gateMu.Lock()
+				gateShut = false
+				waiting := gateWait
+				gateWait = nil
+				gateMu.Unlock()
+				sort.SliceStable(waiting, func(i, j int) bool { return waiting[i].sid < waiting[j].sid })
+				e.St.Probes["writers_parked_at_gate"] += len(waiting)
+				e.St.Faults["write_order_chosen_at_gate"] += len(waiting)
+				for n := abs(a.Arg(3)); len(waiting) > 0; n /= 7 {
+					j := n % len(waiting)
+					close(waiting[j].ch)
+					waiting = append(waiting[:j], waiting[j+1:]...)
+					e.W.Quiesce()
+				}
+				room := maxBoxes - nBoxes()
+				acc := 0
+				for _, p := range ps {
+					lines, _ := p.s.Poll()
+					for _, l := range lines {
+						if l.Tag == p.tag {
+							p.st = l.Status
+						}
+					}
+					e.Tr.Event("pcreate", p.s.Label, p.name, p.st)
+					switch p.st {
+					case "OK":
+						acc++
+						e.R.Create(p.name, "")
+					case "":
+						e.Fail("invariant", "concurrent CREATE %q on %s got no completion", p.name, p.s.Label)
+						return
+					default:
+						refusedN++
+					}
+					p.s.Cmd("LOGOUT")
+					p.s.C.Dead = true
+				}
+				e.St.Probes["parallel_creates"]++
+				if acc > max(room, 0) {
+					e.Fail("limit-concurrent", "%d sessions sent CREATE at the same time with %d mailboxes existing (limit %d) and %d were accepted: room for %d", len(ps), nBoxes()-acc, maxBoxes, acc, max(room, 0))
+					return
+				}
+				// (the hidden recovery mailbox may count against the limit: refusing is judged with it)
+				if acc < min(len(ps), max(room-1, 0)) {
+					e.Fail("fits-refused", "%d sessions sent CREATE at the same time with %d mailboxes existing (limit %d) and only %d were accepted: room for %d", len(ps), nBoxes()-acc, maxBoxes, acc, room-1)
+					return
+				}
+				refreshRemote()
 			case "copy", "move":
 				if len(box.Members) == 0 {
 					continue
